@@ -102,10 +102,6 @@ def observe(units, files, where, unit_order):
         if "Error parsing" in p._verif_log or "ERROR" in p._verif_log:
             problems.append("parse: " + p._verif_log[-400:])
         byname = {u["name"].lower(): u for u in units}
-        leaked = {(u["name"].lower(), r["var"].lower()) for u in units for _, _, nd in G.nested_nodes(u)
-                  for r in nd["refs"] if r["what"] != "call"}
-        leaked |= {(u["name"].lower(), path[-1].lower()) for u in units for path, kinds, _ in G.nested_nodes(u)
-                   if len([k for k in kinds if k != "genblock"]) > 1}
         obs_units, refs, nested = [], [], []
         parsed = list(p.modules) + list(p.programs)
         if [m.name.lower() for m in p.modules] != [n.lower() for n in unit_order if byname[n.lower()]["unit"] == "module"]:
@@ -126,8 +122,6 @@ def observe(units, files, where, unit_order):
                     dm, dn = ident(v)
                     du = byname.get(dm)
                     dd = next((d for d in (du or {"decls": []})["decls"] if d["name"].lower() == dn), None)
-                    if dd is None and (dm, dn) in leaked:
-                        continue        # a procedure's local variable in the shared dictionary (C07)
                     if dd is None or dd["kind"] not in KIND_OF_CLASS.get(type(v).__name__, set()):
                         problems.append(f"{m.name}.{t}[{k}] is {type(v).__name__} {dm}.{dn}: not a declared entity of that kind")
             for d in u["decls"]:
